@@ -270,6 +270,58 @@ def skeletons2():
                         yield p
 
 
+def skeleton_head(K, X, E, fkind):
+    """The construct is the very first code of its function body (bytecode offset 0):
+    no leading log, and the leading `var` counters become parameters."""
+    ex = _exit_stmts(X, K, E)
+    if ex is None:
+        return None
+    xs, klabel, llabel = ex
+    B = _build_inner(K, xs, klabel)
+    stmts = _wrap_encl(E, B, llabel)
+    params, args = ["a"], [id_("a")]
+    while stmts and stmts[0][0] == "var" and all(d[1] is not None and d[1][0] == "num" for d in stmts[0][1]):
+        for name, e in stmts[0][1]:
+            params.append(name)
+            args.append(e)
+        stmts = stmts[1:]
+    fbody = stmts + [log("fe", id_("a")), ret(num(7))]
+    if fkind == "fdecl":
+        f0 = fdecl("f0", params, fbody)
+    elif fkind == "arrow":
+        f0 = var(("f0", arrow(params, fbody)))
+    elif fkind == "fexpr":
+        f0 = var(("f0", fn(None, params, fbody)))
+    else:
+        raise KeyError(fkind)
+    body = [
+        f0,
+        fdecl("f", ["a"], [ret(call(id_("f0"), *args))]),
+        fdecl("caller", ["k"], [
+            var("r"),
+            try_([expr(assign(id_("r"), arr(num(5), call(id_("f"), id_("k")), num(6))))], ("e", [log("caught", id_("e")), expr(assign(id_("r"), num(-1)))]), None),
+            log("r", id_("r")),
+            ret(id_("r")),
+        ]),
+        log("c1", call(id_("caller"), num(1))),
+        expr(call(id_("caller"), num(1))),
+    ]
+    tags = ["K:" + K, "X:" + X, "E:" + E, "head", "head-" + fkind, "%s-x-%s" % (X, K), "%s-in-%s" % (K, E)]
+    if X != "fall":
+        tags.append("abrupt")
+    return prog("skelhead", "skelhead|%s|%s|%s|%s" % (K, X, E, fkind), body, tags)
+
+
+def skeletons_head():
+    for K in KINDS:
+        for X in EXITS:
+            for E in ENCL:
+                for fkind in ("fdecl", "arrow", "fexpr"):
+                    p = skeleton_head(K, X, E, fkind)
+                    if p is not None:
+                        yield p
+
+
 # ====================================================================== switch product
 def switch_product():
     ds = [("1", num(1)), ("2", num(2)), ("3", num(3)), ("9", num(9)), ("s1", s_("1"))]
@@ -667,7 +719,7 @@ def completion_cases():
 
 
 def all_campaigns(seed, n_random, thorough=True):
-    out = [("skel", skeletons()), ("skel2", skeletons2()), ("switch", switch_product()), ("closure", closure_matrix()), ("closure", closure_expr_sites()),
+    out = [("skel", skeletons()), ("skel2", skeletons2()), ("skelhead", skeletons_head()), ("switch", switch_product()), ("closure", closure_matrix()), ("closure", closure_expr_sites()),
            ("scope", scoping_cases()), ("completion", completion_cases())]
     if n_random and "random_programs" in globals():
         out.append(("random", random_programs(seed, n_random)))
@@ -1187,7 +1239,8 @@ class RandomBuilder:
         before = self.budget
         self.budget = min(self.budget, 150)
         start = self.budget
-        body = [log(self.tag(), id_(params[0]) if params else self.lit())]
+        # one function in four starts straight with its first generated statement (code at offset 0)
+        body = [] if (not spec.rec and self.chance(0.25)) else [log(self.tag(), id_(params[0]) if params else self.lit())]
         if spec.rec:
             body.append(if_(bin_("<=", id_("n"), num(0)), block(log(self.tag(), self.lit()), ret(self.num_expr(sc, 1, False)))))
             sc.nums.remove("n")  # never assigned: the recursion must decrease
@@ -1308,6 +1361,8 @@ def describe(p):
         return ["skel", parts[1], parts[2], parts[3], parts[4], int(parts[5])]
     if parts[0] == "skel2":
         return ["skel2", parts[1], parts[2], parts[3], parts[4]]
+    if parts[0] == "skelhead":
+        return ["skelhead", parts[1], parts[2], parts[3], parts[4]]
     if parts[0] == "random":
         return ["random", int(parts[1])]
     return [parts[0], p["id"]]
@@ -1322,6 +1377,8 @@ def from_desc(d):
         return skeleton(d[1], d[2], d[3], d[4], d[5])
     if k == "skel2":
         return skeleton2(d[1], d[2], d[3], d[4])
+    if k == "skelhead":
+        return skeleton_head(d[1], d[2], d[3], d[4])
     if k == "random":
         return random_program(d[1])
     if k == "switch":
